@@ -308,4 +308,4 @@ def run(ctx):
                  "style": None, "line": ln, "dot": None, "template": None, "binary": False, "existing": None, "body": body, "no_replace": False, "table_walk": ln is None}
             check(ctx, c, table_walk=ln is None)
     ctx.extra["exhaustive_subspaces"] = [f"all {len(names)} keys of the extension and file-name tables x {len(variants)} variants with default options"]
-    hyp_run(ctx, "options", case(), lambda c: check(ctx, c), 400 if q else 6000)
+    hyp_run(ctx, "options", case(), lambda c: check(ctx, c), 700 if q else 6000)
